@@ -1,6 +1,7 @@
 package vc
 
 import (
+	"strings"
 	"fmt"
 	"go/ast"
 	"go/types"
@@ -106,6 +107,12 @@ func VerifyCallsites(p *Program, fc *FuncContract, prop string) (u *Unit) {
 		}
 		walk(fi.Decl.Body.List, nil)
 		if found == 0 {
+			if strings.TrimSpace(cs.Clause.Text) == "false" || strings.HasSuffix(strings.TrimSpace(cs.Clause.Text), ": false") {
+				// a prohibition (`requires false`): the callee must not be called at all, and it is not
+				o := w.Oblige(x.oblName("callsite:"+cs.Callee+"/never-called", ""), "frame", True, True)
+				o.Preset, o.Solver, o.Result = true, "callsite-scan", "unsat"
+				continue
+			}
 			u.Err = fmt.Sprintf("attach: no call of %s found in %s", cs.Callee, fc.Key())
 			return u
 		}
